@@ -147,6 +147,11 @@ func (o *c17op) exec(e *c17env) (out string) {
 		return res(asIface(m), err)
 	case 25:
 		m, err := mxj.NewMapJson([]byte(o.Doc))
+		if err == nil {
+			cp, cerr := m.Copy()
+			j, jerr := m.JsonIndent("", " ")
+			return res(asIface(m), err) + res(cp, cerr) + string(j) + res(nil, jerr)
+		}
 		return res(asIface(m), err)
 	case 26:
 		m, err := mxj.NewMapXmlSeq([]byte(o.Doc))
@@ -194,9 +199,13 @@ func (o *c17op) exec(e *c17env) (out string) {
 		b, _ := m.XmlIndent("", " ")
 		l := m.LeafNodes()
 		v, _ := m.ValuesForPath("*.*")
+		cp, cerr := m.Copy() // encoders on data that differs from task to task: shared scratch state shows as mixed-up results
+		x, _ := m.Xml()
+		g, gerr := m.Gob()
+		back, _ := mxj.NewMapGob(g)
 		m.SetValueForPath("x", "a.zz")
 		j, _ := m.Json()
-		return string(b) + res(l, nil) + res(v, nil) + string(j)
+		return string(b) + res(l, nil) + res(v, nil) + string(j) + res(cp, cerr) + string(x) + res(normGob(back), gerr)
 	case 30:
 		v, err := S.ValuesForPath(o.A, o.B+":*")
 		return res(v, err)
@@ -217,6 +226,31 @@ func (o *c17op) exec(e *c17env) (out string) {
 		return string(b) + res(nil, err)
 	}
 	return "?"
+}
+
+// normGob maps the nil containers encoding/gob produces for empty ones back to empty
+// (open finding C19-gob-empty-container-becomes-nil is not this property's business).
+func normGob(v interface{}) interface{} {
+	switch x := v.(type) {
+	case mxj.Map:
+		return normGob(map[string]interface{}(x))
+	case map[string]interface{}:
+		if x == nil {
+			return map[string]interface{}{}
+		}
+		o := make(map[string]interface{}, len(x))
+		for k, e := range x {
+			o[k] = normGob(e)
+		}
+		return o
+	case []interface{}:
+		o := make([]interface{}, len(x))
+		for i, e := range x {
+			o[i] = normGob(e)
+		}
+		return o
+	}
+	return v
 }
 
 // sharesStructure reports a map or slice backing store reachable from both values.
